@@ -113,4 +113,9 @@ def kron (r₂ c₂ : ℕ) (A B : ℕ → ℕ → ℚ) (I J : ℕ) : ℚ :=
 def basis2 (K₂ m₂ : ℕ) (V₁ V₂ : ℕ → ℕ → ℚ) (f a b : ℕ) : ℚ :=
   kron K₂ m₂ V₁ V₂ f (a * m₂ + b)
 
+/-- Three input dimensions: `reduce(np.kron, [V₁, V₂, V₃]).reshape(K₁·K₂·K₃, m₁, m₂, m₃)[f, a, b, c]`
+(`np.kron` folded from the left, row-major reshape). -/
+def basis3 (K₂ m₂ K₃ m₃ : ℕ) (V₁ V₂ V₃ : ℕ → ℕ → ℚ) (f a b c : ℕ) : ℚ :=
+  kron K₃ m₃ (kron K₂ m₂ V₁ V₂) V₃ f ((a * m₂ + b) * m₃ + c)
+
 end FDA.Bases
